@@ -31,6 +31,7 @@ fn dispatch(line: &str) -> String {
         Some("o_exp") => s_pa::oracle_expect(&toks[1..]),
         Some("o_c09") => s_pa::oracle_c09(&toks[1..]),
         Some("o_skip") => s_pa::oracle_skip(&toks[1..]),
+        Some("o_new") => s_pa::oracle_new(&toks[1..]),
         Some("o_c10") => s_pa::oracle_c10(&toks[1..]),
         Some("o_rt") => s_pa::oracle_rt(&toks[1..]),
         Some("o_b2c") => s_pa::oracle_btor2_const(&toks[1..]),
